@@ -43,7 +43,8 @@ class C13(runner.Check):
   probes = ['probe.restart-after-state-changed', 'probe.nsga2-left-sampling-phase', 'probe.eagle-pool-full',
             'probe.cmaes-generation-boundary', 'probe.infeasible-trial-fed', 'probe.depth.direct',
             'probe.depth.policy', 'probe.depth.service', 'probe.grid-fully-covered', 'probe.exhaustive-subsets', 'probe.out-of-order-completions',
-            'probe.suggest-without-new-completions']
+            'probe.suggest-without-new-completions', 'probe.update-refused-by-both',
+            'probe.prior-life-of-the-study-name']
 
   def gen(self, rng, idx, tier):
     depth = rng.choice(['direct'] * 5 + ['policy'] * 3 + ['service'] * 2)
@@ -85,8 +86,12 @@ class C13(runner.Check):
             # are completed at the next step that is not 2
             'hold': [rng.choice([0, 0, 0, 0, 1, 2, 2]) for _ in range(n)] if rng.random() < 0.4 else [0] * n,
             'batches': batches, 'restart_sets': sets, 'exhaustive': exhaustive,
-            'infeasible_mod': rng.choice([0, 0, 4, 5]) if name != 'nsga2' else 0,
+            # NSGA-II refuses infeasible trials on this tree (KeyError): then both twins must refuse alike
+            'infeasible_mod': rng.choice([0, 0, 4, 5]) if name != 'nsga2' else (rng.choice([0, 0, 0, 5, 7]) if depth == 'direct' else 0),
             'metrics': 2 if (name == 'nsga2' and rng.random() < 0.5) else 1,
+            # service depth, restarted run only: a study of the same name lived (this many suggest+complete
+            # rounds) and was deleted before; a new study must not inherit anything from it
+            'prior_life': rng.choice([0, 0, 1, 2, 3]) if depth == 'service' else 0,
             'advance': [rng.choice([0.0, 0.0, 3.0, 100.0]) for _ in range(n)],
             'epoch': simclock.EPOCH + rng.randrange(10**6)}
 
@@ -110,6 +115,8 @@ class C13(runner.Check):
         yield dict(plan, batches=plan['batches'][:i] + [1] + plan['batches'][i + 1:])
     if plan.get('infeasible_mod'):
       yield dict(plan, infeasible_mod=0)
+    if plan.get('prior_life', 0) > 1:
+      yield dict(plan, prior_life=1)
     if any(plan.get('hold') or []):
       yield dict(plan, hold=[0] * n)
 
@@ -219,8 +226,20 @@ class C13(runner.Check):
         if order != 'in-order':
           res.bump('probe.out-of-order-completions')
         before = twin.cma_state(A) if name == 'cmaes' else None
-        twin.update(A, trials)
-        twin.update(B, trials)
+        outcome = []
+        for inst in (A, B):
+          try:
+            twin.update(inst, trials)
+            outcome.append('ok')
+          except Exception as e:  # pylint: disable=broad-except
+            outcome.append(type(e).__name__)
+        if outcome[0] != outcome[1]:
+          viol.append(('update-outcome-differs-after-restart', f'step {step}: live instance {outcome[0]}, restarted instance {outcome[1]}'))
+          break
+        if outcome[0] != 'ok':
+          # the algorithm refuses this history (e.g. an infeasible trial): both twins refused alike
+          res.bump('probe.update-refused-by-both')
+          break
         if name == 'cmaes' and twin.cma_state(A) != before:
           res.bump('probe.cmaes-generation-boundary')
         if name == 'eagle':
@@ -342,6 +361,16 @@ class C13(runner.Check):
       with simclock.installed(clk, simclock.Entropy(seed)):
         world = O.World(cfg, backend='sqlfile' if run_b else 'ram')
         try:
+          if run_b and plan.get('prior_life'):
+            O.execute(world.sv, {'kind': 'CreateStudy', 'owner': 0, 'display': 0, 'state': 'ACTIVE'}, cfg)
+            for k in range(plan['prior_life']):
+              out = O.outcome_norm('SuggestTrials', O.execute(
+                  world.sv, {'kind': 'SuggestTrials', 'study': main, 'n': 2, 'worker': k % 2}, cfg))
+              for t in (out[2]['trials'] if out[0] == 'ok' else []):
+                O.execute(world.sv, {'kind': 'CompleteTrial', 'study': main, 'trial': t['id'], 'ckind': 'final',
+                                     'v': twin.objective(t['params']), 'w': 0}, cfg)
+            O.execute(world.sv, {'kind': 'DeleteStudy', 'study': main}, cfg)
+            res.bump('probe.prior-life-of-the-study-name')
           O.execute(world.sv, {'kind': 'CreateStudy', 'owner': 0, 'display': 0, 'state': 'ACTIVE'}, cfg)
           seq = []
           for step, count in enumerate(plan['batches']):
